@@ -909,6 +909,31 @@ impl<'w> Ctx<'w> {
                 cands.push(*p);
             }
         }
+        // a peer that has left a blocks / transactions proof request unanswered for more than
+        // the message timeout is dropped by this tick whatever else it sent meanwhile (the record
+        // of when a request was first seen is the harness's own)
+        for (what, tbl) in [("blocks-proof", &self.when_b), ("transactions-proof", &self.when_t)] {
+            for (p, (_, w)) in tbl.iter() {
+                let still_there = peers_tbl.get_state(&PeerIndex::new(*p as usize)).is_some();
+                if now > *w + MESSAGE_TIMEOUT && !gone.contains(p) && still_there && pre.peers.iter().any(|x| x.0 == *p) {
+                    rep.violate(
+                        &format!("C16|lost|unanswered-{}-request-never-times-out", what),
+                        "a peer keeps a proof request unanswered beyond the message timeout and is not dropped by the refresh tick: the fetch stays in flight with it for ever",
+                        vec![format!("history-seed {} len {}", sink.cur.0, sink.cur.1), format!("# peer {} request first seen at {} tick at {}", p, w, now)],
+                    );
+                }
+            }
+        }
+        // so is a peer whose state-machine request, last state or block download is over-age
+        for p in &state_to {
+            if !gone.contains(p) && pre.peers.iter().any(|x| x.0 == *p) && peers_tbl.get_state(&PeerIndex::new(*p as usize)).is_some() {
+                rep.violate(
+                    "C16|lost|peer-with-an-over-age-timer-is-not-dropped",
+                    "a peer whose last state, state-machine request or block download is older than the message timeout is not dropped by the refresh tick: what it was asked for stays in flight with it",
+                    vec![format!("history-seed {} len {}", sink.cur.0, sink.cur.1), format!("# peer {} tick at {}", p, now)],
+                );
+            }
+        }
         let post = self.snap();
         sink.op(
             &pre,
